@@ -320,6 +320,9 @@ def build_scenario(I, res, model):
 
 # ---------------------------------------------------------------------------- main-process side
 
+_BATTERY_CACHE = {}
+
+
 def _safe(name):
     out = []
     for ch in name:
@@ -335,7 +338,13 @@ def write_and_run(prop, obl, prog):
            "how_to_run": f"cd /verif && ./check replay {path}"}
     with open(path, "w") as fh:
         json.dump(doc, fh, indent=1, default=str)
-    code, out = _run(path)
+    kind = (obl.get("scenario") or {}).get("kind")
+    if kind in _BATTERY_CACHE:
+        code, out = _BATTERY_CACHE[kind]          # the batteries do not depend on the obligation
+    else:
+        code, out = _run(path)
+        if kind in ("history_battery", "order_battery", "name_battery"):
+            _BATTERY_CACHE[kind] = (code, out)
     with open(path[:-5] + ".out", "w") as fh:
         fh.write(out)
     return path, code == 1
